@@ -14,10 +14,11 @@ pub mod c09;
 pub mod c10;
 pub mod c11;
 pub mod c12;
+pub mod c13;
 pub mod c16;
 pub mod c17;
 
-pub const IDS: &[&str] = &["C01", "C02", "C03", "C04", "C05", "C06", "C07", "C08", "C09", "C10", "C11", "C12", "C16", "C17"];
+pub const IDS: &[&str] = &["C01", "C02", "C03", "C04", "C05", "C06", "C07", "C08", "C09", "C10", "C11", "C12", "C13", "C16", "C17"];
 
 macro_rules! dispatch {
     ($id:expr, $f:ident, $($arg:expr),*) => {
@@ -34,6 +35,7 @@ macro_rules! dispatch {
             "C10" => $f(&c10::C10, $($arg),*),
             "C11" => $f(&c11::C11, $($arg),*),
             "C12" => $f(&c12::C12, $($arg),*),
+            "C13" => $f(&c13::C13, $($arg),*),
             "C16" => $f(&c16::C16, $($arg),*),
             "C17" => $f(&c17::C17, $($arg),*),
             other => {
